@@ -239,3 +239,46 @@ Proof.
       try (vm_compute; intros e He; repeat (destruct He as [He|He]; [subst e; cbn; auto 10|]); destruct He). }
   vm_compute. repeat split; reflexivity.
 Qed.
+
+(* ================================================================================================================
+   Reliable.sendOneFrame (Model/SendOne.v, Proofs/SendOneProofs.v): the step between "the sender hands a frame to
+   the muxer" (what c08_emitted_from_buffer and the liveness theorem speak about) and the muxer's queues.  It
+   suppresses empty acknowledgement frames that repeat the last transmitted (ackNo, frameNo) pair.  The theorems
+   say that this suppression can only ever withhold a frame that carries nothing. *)
+From Hop Require Import SendOne SendOneProofs.
+
+(* ---- in EVERY state of the suppression counters, a frame of the byte stream (payload or FIN) or a
+   retransmission — everything a step of the sender model emits — is handed to the muxer: same frame number,
+   on the priority queue iff it is a retransmission, stamped with the receive window's current ackNo *)
+Theorem c08_stream_frames_never_suppressed : forall (st : so_state) (c : so_call),
+  so_stream_frame c = true ->
+  exists ackflag, snd (send_one_frame st c) = Some (sc_retx c, sc_ack c, ackflag, sc_no c).
+Proof. exact stream_frame_sent. Qed.
+Print Assumptions c08_stream_frames_never_suppressed.
+
+(* ---- after every call — hence after every history of calls — the last acknowledgement number handed to the
+   muxer is the receive window's current one: what was withheld repeated what the peer had already been sent *)
+Theorem c08_transmitted_ack_is_current : forall (cs : list so_call) (st : so_state) (c : so_call),
+  so_last_ack (fst (so_run st (cs ++ [c]))) = sc_ack c.
+Proof. exact ack_current_run. Qed.
+Print Assumptions c08_transmitted_ack_is_current.
+
+(* ---- suppression is bounded: in every history from the initial state the counter stays <= 10, and from any
+   such state at most 10 - unsend calls in a row hand nothing to the muxer — the 11th repetition of an
+   acknowledgement is transmitted again (this is what repairs a lost acknowledgement on an otherwise idle tube) *)
+Theorem c08_ack_suppression_bounded : forall (before cs : list so_call),
+  let st := fst (so_run so_init before) in
+  so_unsend st <= 10 /\
+  (Forall (fun o => o = None) (snd (so_run st cs)) -> N.of_nat (List.length cs) + so_unsend st <= 10).
+Proof.
+  intros before cs st.
+  assert (B: so_unsend st <= 10) by (apply unsend_bound; cbn; discriminate).
+  split; [exact B|]. apply suppressed_run_short. exact B.
+Qed.
+Print Assumptions c08_ack_suppression_bounded.
+
+Example c08_ack_suppression_example :
+  let idle := {| sc_ack := 7; sc_no := 3; sc_dlen := 0; sc_ackflag := false; sc_fin := false; sc_resp := false; sc_retx := false |} in
+  map (fun o => match o with Some _ => true | None => false end) (snd (so_run so_init (repeat idle 13)))
+  = [true; false; false; false; false; false; false; false; false; false; false; true; false].
+Proof. vm_compute. reflexivity. Qed.
